@@ -25,6 +25,10 @@ CLAIMED["C01"] = dict(engine="E2", technique="contracts (requires/ensures over t
     text="Proof over the reals, N=1,2,3: trace, det, invert, square, symmetric_product, deviator, sigmaeq, contraction, change_basis/changeBasis, buildFromMatrix, Id, importTab/exportTab/importVoigt/import/write, "
          "get/setComponent (with frame) and the diadic-product builders equal the same operation on the 3x3 symmetric matrix, for every input; the only discrepancy left is rounding.",
     note=TB_E2 + " Rounding magnitude and tiny/huge-scale overflow are not covered.")
+CLAIMED["C27"] = dict(engine="E1", technique="CBMC function contracts with ghost state for exceptions and warnings; tensor overloads verified against the scalar checks' contracts (--replace-call-with-contract); loop-free, complete over all doubles and policies",
+    text="Proof for all doubles (NaN and infinities included), all bounds and the three policies: each of the 6 scalar checks (plain and quantity overloads) and the 18 stensor<1|2|3> overloads throws iff out of bounds under Strict "
+         "(reporting the first offending component), never throws and warns once per offending component under Warning, does nothing under None; bounds inclusive. 'Physical bounds are always strict' is a supporting static fact on the emitter text, not a proof.",
+    note=TB_E1 + " The bodies of throw*/display* in src/Material/BoundsCheck.cxx are not under contract ([[noreturn]] trusted); message strings are dropped.")
 
 NOT_APPLICABLE = {
     "C03": "floating-point tolerance statement about iterative eigen-solvers (Jacobi/QL/Cardano with cos/acos); no contract within reach of CBMC-C or the real-arithmetic VC generator expresses it",
